@@ -25,10 +25,17 @@ def gen_cases(rng, tier: str) -> list[dict]:
             exprs.append(("offender", gen.wrap_random(g, bad, 1)))
             exprs += [("hidden", h) for h in c07.skipping_parents(g, bad)[:8]]
     exprs += common.expr_stream(rng, tier, common.sizes(tier, 150, 2500), depth_q=4, depth_t=6, names=("x", "y", "z"), share=0.2, max_size=150)
+    # inputs whose symbolic derivative exceeds the 1000-step budget: the fallback path of the rewriter
+    from . import c08
+    exprs += [("budget", e) for e in c08.big_inputs(rng)[: (1 if tier == "quick" else 3)]]
+    chain = X.Variable("x")
+    for _ in range(40):
+        chain = chain * X.Variable("x")
+    exprs.append(("budget", chain))
     cases = []
     for origin, e in exprs:
         vs = common.names_of(e)
-        for j, p in enumerate(common.points_for(rng, e, 2)):
+        for j, p in enumerate(common.points_for(rng, e, 2 if origin != "budget" else 1)):
             if j == 1 and vs and rng.random() < 0.3:
                 p = {k: v for k, v in p.items() if k != rng.choice(vs)}
             c = common.make_eval_case(origin, e, p)
